@@ -34,7 +34,7 @@ class C19:
     tables = True
     exhaustive = True
     rule = (
-        "cases = histories of 8 steps over {write new script text, edit keeping the size, touch, run as script, run the same text as -c code (single mode) and as stdin code (exec mode)} under all settings of "
+        "cases = histories of 8 steps over {write new script text, edit keeping the size, touch (virtual time moving by 2 s .. 4 ms), run one of two same-named scripts by absolute or relative path, load it through the import hook's loader, run the same text as -c code (single mode) and as stdin code (exec mode)} under all settings of "
         "(execer.scriptcache, execer.cacheall, $XONSH_CACHE_SCRIPTS, $XONSH_CACHE_EVERYTHING), compared step by step with a cache-free twin; plus, per script, every truncation length 0..len of its cache entry, "
         "zero-filled tails, foreign version headers, non-marshal payloads, directory / unreadable file / read-only directory in place of the entry (exhaustive per entry); plus CLI runs; "
         "distinct_nontrivial = distinct (history shape, switches) and distinct (script, corruption) pairs"
